@@ -14,6 +14,15 @@ RULE = ("seeded random documents (maps/sequences/sets to depth 3, repeated equal
         "plus the corpus of past failures.  The matched nodes are gathered by the real evaluator on a twin document and "
         "converted to addresses; the real delete_nodes()/delete_gathered_nodes() runs on the real document; the whole "
         "document afterwards (and the error class) must equal the Lean specification removeAll (proved equal to the model). "
+        "Real code only, judged directly: (slices) every `[a:b]` with a, b in -9..9 on sequences of 0-5 distinct elements (under a key, "
+        "nested in a map, inside a sequence, as the root), both notations and both delete APIs - the matched elements are "
+        "identified by the values of the nodes get_nodes() returns, the sequence afterwards must be the original minus exactly "
+        "those; (merge keys, outside the model) seeded YAML texts with 2-3 anchored source maps (sources merging sources), consumers "
+        "at top level and inside a list merging 1-3 sources (`<<: *m`, `<<: [*m1, *m0]`, before / between / after own keys), own "
+        "keys that override a merged key with another value, repeat its value, are new, or are spelled like an anchor, x deletes "
+        "of a merge reference (`/svc0/&m1`, `svc0.&m1`, `/*/&m0`, `items.*.&m0`, collectors of them), of own keys, of elements: the "
+        "physical document (own keys per mapping in order, merge references in order, sequences, anchors, sharing) afterwards "
+        "is the original minus the matched own entries / elements / merge references.  "
         "distinct_nontrivial = distinct (document, path) pairs that matched >= 1 non-root node.")
 
 CORPUS = [
@@ -57,7 +66,15 @@ def run(chk: core.Check):
                 except Exception:
                     pass
         n = 14000 if chk.tier == "quick" else 250000
-        cases += gen_cases(random.Random(chk.seed), n)
+        rng = random.Random(chk.seed)
+        cases += gen_cases(rng, n)
+        scases = gen_slice_cases()
+        chk.extra_cov["slice_bound_cases"] = "%d: every [a:b], a, b in -9..9, on sequences of 0-5 distinct elements in 4 positions, both delete APIs" % len(scases)
+        cases += scases
+        mcases = gen_merge_cases(rng, 1500 if chk.tier == "quick" else 25000)
+        chk.extra_cov["merge_key_document_cases"] = len(mcases)
+        cases += mcases
+        rng.shuffle(cases)
         chunks = core.chunked(cases, 64)
     results = core.pmap(_job, chunks)
     for stats, viol, disag, samples, keys in results:
@@ -78,6 +95,472 @@ def run(chk: core.Check):
         print("replay:", json.dumps({"violations": chk.violations[:2], "disagreements": chk.disagreements[:2],
                                      "known": {k: v["n"] for k, v in chk.known_hits.items()}})[:1500])
     return chk
+
+
+# --------------------------------------------------------------------------- slices with bounds beyond the sequence (real code)
+#
+# `[a:b]` with a, b over -9..9 on sequences of 0-5 DISTINCT elements (strings, one empty list, one map), the sequence
+# under a key, nested in a map, inside another sequence, or the document root.  Judged directly on the real code and
+# independently of the parentrefs the evaluator hands out: the matched elements are identified by the VALUES of the
+# nodes get_nodes() returns (elements are distinct), and after the delete the sequence must be the original minus
+# exactly those elements, everything else as before.  Slices that match no element are counted, not judged.
+
+SLICE_ELEMS = [{"k": "str", "v": "e0"}, {"k": "seq", "i": []}, {"k": "str", "v": "e2"},
+               {"k": "map", "e": [["q", {"k": "int", "v": "1"}]]}, {"k": "int", "v": "4"}]
+SLICE_SHAPES = ["key", "nested", "inseq", "root"]
+
+
+def slice_doc(shape, n):
+    seq = {"k": "seq", "i": [json.loads(json.dumps(e)) for e in SLICE_ELEMS[:n]]}
+    if shape == "key":
+        return {"k": "map", "e": [["a", {"k": "int", "v": "1"}], ["l", seq], ["k", {"k": "str", "v": "e0"}]]}, "l", [["k", "l"]]
+    if shape == "nested":
+        return ({"k": "map", "e": [["a", {"k": "map", "e": [["l", seq], ["x", {"k": "seq", "i": [{"k": "str", "v": "e0"}]}]]}]]},
+                "a.l", [["k", "a"], ["k", "l"]])
+    if shape == "inseq":
+        return ({"k": "map", "e": [["l", {"k": "seq", "i": [{"k": "str", "v": "e0"}, seq, {"k": "seq", "i": [{"k": "str", "v": "e0"}, {"k": "str", "v": "e2"}]}]}]]},
+                "l[1]", [["k", "l"], ["i", 1]])
+    return seq, "", []
+
+
+def gen_slice_cases():
+    cases = []
+    for shape in SLICE_SHAPES:
+        for n in range(0, 6):
+            doc, prefix, addr = slice_doc(shape, n)
+            for a in range(-9, 10):
+                for b in range(-9, 10):
+                    for api in ("delete_nodes", "gathered"):
+                        path = "%s[%d:%d]" % (prefix, a, b)
+                        if (a + b) % 2 and prefix:
+                            path = "/" + prefix.replace("[", "/").replace("]", "").replace(".", "/") + "[%d:%d]" % (a, b)
+                        cases.append({"slice": True, "doc": doc, "path": path, "seq_addr": addr, "api": api})
+    return cases
+
+
+def leaf_values(ncs, out):
+    from yamlpath.wrappers import NodeCoords
+    for nc in ncs:
+        node = nc.node if isinstance(nc, NodeCoords) else nc
+        if isinstance(node, NodeCoords):
+            leaf_values([node], out)
+        elif isinstance(node, list) and len(node) > 0 and isinstance(node[0], NodeCoords):
+            leaf_values(node, out)
+        elif isinstance(node, list) and len(node) == 0 and not _is_element(nc):
+            continue            # the empty result of a slice (a virtual list, not an element)
+        else:
+            out.append(codec.node_to_json(node, anchors=False))
+
+
+def _is_element(nc):
+    """True if the NodeCoords' node IS an element of its parent sequence (an empty-list element, not an empty virtual
+    slice result)."""
+    return isinstance(nc.parent, list) and any(x is nc.node for x in nc.parent)
+
+
+def slice_case(case, bump, viol, keys):
+    from yamlpath import Processor
+    j, path = case["doc"], case["path"]
+    twin = ed.build(j)
+    proc = Processor(core.quiet_logger(), twin)
+    res = ed.guarded(lambda: list(proc.get_nodes(path, mustexist=True)))
+    if res[0] != "ok":
+        bump("slice:skipped:query-" + res[0].split(":")[0])
+        return
+    if ed.snapshot(twin) != j:
+        bump("slice:skipped:query-mutates-document")
+        return
+    vals = []
+    leaf_values(res[1], vals)
+    seq = j
+    for kind, ref in case["seq_addr"]:
+        seq = dict((k, v) for k, v in seq["e"])[ref] if kind == "k" else seq["i"][ref]
+    elems = [codec.strip_anchors(e) for e in seq["i"]]
+    if not vals:
+        bump("slice:matched-no-element(not judged)")
+        return
+    if any(v not in elems for v in vals):
+        bump("slice:skipped:result-is-not-an-element")
+        return
+    gone = set(elems.index(v) for v in vals)
+    want = json.loads(json.dumps(j))
+    wseq = want
+    for kind, ref in case["seq_addr"]:
+        wseq = dict((k, v) for k, v in wseq["e"])[ref] if kind == "k" else wseq["i"][ref]
+    wseq["i"] = [e for i, e in enumerate(wseq["i"]) if i not in gone]
+    r, after = real_delete(j, path, case.get("api", "delete_nodes"))
+    rep = dict(case)
+    bump("slice:matched:%d-of-%d" % (len(gone), len(elems)))
+    bump("slice:impl:" + r[0].split(":")[0])
+    what = "delete %s over a sequence of %d elements (matched elements %s)" % (path, len(elems), sorted(gone))
+    if r[0] == "timeout":
+        viol.append(("timeout", what + " did not finish", rep))
+    elif r[0].startswith("crash"):
+        viol.append(("slice-delete:%s@%s" % (r[0], r[1]), what + " raised %s (%s); document afterwards: %s" % (
+            r[0], r[1], json.dumps(codec.json_to_plain(after), default=list)[:200]), rep))
+    elif r[0] != "ok":
+        viol.append(("slice-delete:unexpected-error", what + " raised a YAML Path error though the root is not matched", rep))
+    elif after != want:
+        viol.append(("slice-delete:wrong-elements-removed", what + " left %s" % json.dumps(codec.json_to_plain(after), default=list)[:240], rep))
+    else:
+        keys.append(_key(case))
+
+
+# --------------------------------------------------------------------------- documents with YAML merge keys (real code only)
+#
+# Merge keys (`<<: *anchor`) are outside the Lean model; the property is judged directly on the real code, on the
+# PHYSICAL document (c03.mk_phys: every mapping's OWN keys in order (non_merged_items) with their values, its merge
+# references in order, every sequence, every anchor, which containers are shared).  The matched nodes come from the
+# real evaluator on a twin: an own key / element (parentref is an own key or an index) or a merge reference (an
+# ANCHOR segment naming an anchored mapping the parent merges: `/svc0/&m1`).  After the delete the physical document
+# is the original minus the matched own entries / elements / merge references: every mapping's own keys - also those
+# that override a merged key - and the other merge references are as before.
+
+MKD_KEYS = ["a", "b", "c", "k", "t"]
+MKD_VALS = ["1", "2", "3", "x", "y z", "true", "30"]
+
+
+def gen_merge_doc(rng):
+    """YAML text: 2-3 anchored source maps &m0.. with DISTINCT contents (a source may merge an earlier one); consumers
+    (top-level maps and maps inside a list) merging 1-3 sources - single `<<: *m` or a list `<<: [*m1, *m0]` - with own
+    keys before/after the merge line, of which some override a merged key with ANOTHER value, some repeat a merged key
+    with the SAME value, some are new; now and then an own key spelled like a source's anchor, an alias of a whole
+    source, a plain list."""
+    lines = ["---"]
+    nsrc = rng.randint(2, 3)
+    srcs = []                       # (anchor, {key: text})
+    for i in range(nsrc):
+        lines.append("base%d: &m%d" % (i, i))
+        inherited = {}
+        if srcs and rng.random() < 0.3:
+            a, kv = rng.choice(srcs)
+            lines.append("  <<: *%s" % a)
+            inherited = dict(kv)
+        ks = rng.sample(MKD_KEYS, rng.randint(1, 3))
+        own = {}
+        for k in ks:
+            own[k] = rng.choice(MKD_VALS)
+            lines.append("  %s: %s" % (k, own[k]))
+        lines.append("  id%d: src%d" % (i, i))            # keeps the sources' contents distinct
+        kv = dict(inherited)
+        kv.update(own)
+        srcs.append(("m%d" % i, kv))
+
+    def consumer(ind, first_prefix=None):
+        picks = rng.sample(srcs, rng.choice([1, 1, 2, 2, min(3, len(srcs))]))
+        merged = {}
+        for a, kv in reversed(picks):
+            merged.update(kv)
+        ownlines = []
+        for _ in range(rng.randint(0, 3)):
+            r = rng.random()
+            if merged and r < 0.35:
+                k = rng.choice(sorted(merged))
+                v = rng.choice([x for x in MKD_VALS if x != merged[k]])       # overrides a merged key
+            elif merged and r < 0.5:
+                k = rng.choice(sorted(merged))
+                v = merged[k]                                                 # repeats the merged value
+            elif r < 0.58:
+                k, v = rng.choice(picks)[0], "1"                              # a key spelled like an anchor
+            else:
+                k, v = rng.choice(MKD_KEYS + ["n", "z"]), rng.choice(MKD_VALS)
+            if k not in [x[0] for x in ownlines]:
+                ownlines.append((k, v))
+        mline = "<<: *%s" % picks[0][0] if len(picks) == 1 and rng.random() < 0.7 else "<<: [%s]" % ", ".join("*" + a for a, _ in picks)
+        pos = rng.randint(0, len(ownlines))
+        body = ["%s: %s" % kv for kv in ownlines[:pos]] + [mline] + ["%s: %s" % kv for kv in ownlines[pos:]]
+        for n, b in enumerate(body):
+            lines.append((first_prefix if (n == 0 and first_prefix) else ind) + b)
+        return [a for a, _ in picks], [k for k, _ in ownlines]
+
+    consumers = []          # (path prefix in segments, merged anchors, own keys)
+    for i in range(rng.randint(1, 3)):
+        lines.append("svc%d:" % i)
+        refs, own = consumer("  ")
+        consumers.append((["svc%d" % i], refs, own))
+    if rng.random() < 0.6:
+        lines.append("items:")
+        for i in range(rng.randint(1, 3)):
+            if rng.random() < 0.8:
+                refs, own = consumer("    ", "  - ")
+                consumers.append((["items", i], refs, own))
+            else:
+                lines.append("  - %s" % rng.choice(MKD_VALS))
+    if rng.random() < 0.3:
+        lines.append("copy: *%s" % rng.choice(srcs)[0])
+    if rng.random() < 0.4:
+        lines.append("top: [%s]" % ", ".join(rng.choice(MKD_VALS) for _ in range(rng.randint(1, 3))))
+    return "\n".join(lines) + "\n", srcs, consumers
+
+
+def _ptext(segs, sep):
+    out = ""
+    for s_ in segs:
+        if sep == "/":
+            out += "/" + (str(s_) if not isinstance(s_, int) else "%d" % s_)
+        elif isinstance(s_, int):
+            out += "[%d]" % s_
+        else:
+            out += ("." if out else "") + s_
+    return out
+
+
+def gen_merge_cases(rng, ndocs):
+    cases = []
+    for _ in range(ndocs):
+        text, srcs, consumers = gen_merge_doc(rng)
+        paths = []
+        for _ in range(4):
+            pre, refs, own = rng.choice(consumers)
+            sep = rng.choice(["/", "."])
+            r = rng.random()
+            if r < 0.5:
+                a = rng.choice(refs)                                    # a merge reference of this mapping
+            elif r < 0.6:
+                a = rng.choice(srcs)[0]                                 # maybe one it does not merge
+            elif r < 0.8 and own:
+                paths.append(_ptext(pre + [rng.choice(own)], sep))      # an own key (overriding or not)
+                continue
+            elif r < 0.9:
+                a = rng.choice(srcs)[0]
+                paths.append(rng.choice(["/*/&%s", "*.&%s", "/items/*/&%s", "items.*.&%s", "(/svc0/&%s)+(/svc1/&%s)".replace("%s", "%s", 1)]).replace("%s", a))
+                continue
+            else:
+                paths.append(rng.choice(["/base0/" + rng.choice(MKD_KEYS), "base1.id1", "/items/0", "items[-1]", "/top/0", "copy", "/svc0", "items"]))
+                continue
+            paths.append(_ptext(pre, sep) + ("/&" if sep == "/" else ".&") + a)
+        for path in paths:
+            cases.append({"merge": True, "text": text, "path": path, "api": rng.choice(["delete_nodes", "delete_nodes", "gathered"])})
+    return cases
+
+
+def mk_renumber(table):
+    """Drop the containers no longer reachable from container 0 and number the rest in first-visit order (merge
+    references first, then own entries / items - the order of c03.mk_phys)."""
+    new, out = {}, []
+
+    def ref(v):
+        if v[0] != "ref":
+            return v
+        return ["ref", visit(v[1])]
+
+    def visit(i):
+        if i in new:
+            return new[i]
+        n = new[i] = len(out)
+        out.append(None)
+        c = table[i]
+        if c["t"] == "map":
+            merges = [ref(m) for m in c["merge"]]
+            own = [[k, ref(v)] for k, v in c["own"]]
+            out[n] = dict(c, merge=merges, own=own)
+        else:
+            out[n] = dict(c, items=[ref(v) for v in c["items"]])
+        return n
+    visit(0)
+    return out
+
+
+def merge_case(case, bump, viol, keys):
+    from yamlpath import Processor
+    from yamlpath.wrappers import NodeCoords
+    from yamlpath.enums import PathSegmentTypes
+    from ruamel.yaml.comments import CommentedMap
+    from harness.props import c03
+    text, path, api = case["text"], case["path"], case.get("api", "delete_nodes")
+    twin = c03.mk_load(text)
+    if twin is None:
+        bump("merge-doc:skipped-does-not-load")
+        return
+    ids = {}
+    before = c03.mk_phys(twin, ids_out=ids)
+    # fence: two anchored mappings that compare equal make `merge_node == compare_node` ambiguous (evaluator's subject)
+    amaps_all = ids_maps(twin)
+    amaps = [c for c in amaps_all if codec.anchor_of(c)]
+    if any(x is not y and x == y for x in amaps for y in amaps):
+        bump("merge-doc:skipped-equal-anchored-mappings")
+        return
+    proc = Processor(core.quiet_logger(), twin)
+    res = ed.guarded(lambda: list(proc.get_nodes(path, mustexist=True)))
+    if res[0] != "ok":
+        bump("merge-doc:skipped:query-" + res[0].split(":")[0])
+        return
+    if c03.mk_phys(twin) != before:
+        bump("merge-doc:skipped:query-mutates-document")
+        return
+    real = []
+
+    def flatten(ncs):
+        for nc in ncs:
+            node = nc.node
+            if isinstance(node, list) and len(node) > 0 and isinstance(node[0], NodeCoords):
+                flatten(node)
+            elif isinstance(node, NodeCoords):
+                flatten([node])
+            else:
+                real.append(nc)
+    flatten(res[1])
+    if not real:
+        bump("merge-doc:skipped:no-match")
+        return
+    want = json.loads(json.dumps(before))
+    rm_own, rm_item, rm_merge = set(), set(), set()
+    feats = set()
+    eq_own = {}             # container -> own keys whose value compares equal (==) to that key of a removed merged mapping
+    for nc in real:
+        parent, pref = nc.parent, nc.parentref
+        if parent is None or id(parent) not in ids:
+            bump("merge-doc:skipped:root-or-detached-parent")
+            return
+        ci = ids[id(parent)]
+        c = before[ci]
+        seg_type = nc.path_segment[0] if isinstance(nc.path_segment, tuple) else None
+        if c["t"] == "seq":
+            if isinstance(pref, bool) or not isinstance(pref, int) or not -len(parent) <= pref < len(parent):
+                bump("merge-doc:skipped:result-does-not-locate-a-node")
+                return
+            rm_item.add((ci, pref % len(parent)))
+            continue
+        own_keys = [k for k, _ in c["own"]]
+        is_mref = (isinstance(nc.node, CommentedMap) and id(nc.node) in ids and ["ref", ids[id(nc.node)]] in c["merge"]
+                   and seg_type is PathSegmentTypes.ANCHOR and codec.anchor_of(nc.node) == pref)
+        if is_mref:
+            rm_merge.add((ci, ids[id(nc.node)]))
+            feats.add("merge-reference")
+            tgt = nc.node
+            for k, v in parent.non_merged_items():
+                if k in tgt:
+                    if tgt[k] == v:
+                        feats.add("own-key-repeats-merged-value")
+                        eq_own.setdefault(ci, set()).add(json.dumps(codec.key_to_json(k)))
+                    else:
+                        feats.add("own-key-overrides-merged-key")
+            if len(c["merge"]) > 1:
+                feats.add("several-references")
+            lidx = [i for i, m in enumerate(parent.merge) if m[1] is tgt][0]
+            if parent.merge[lidx][0] != lidx:
+                feats.add("reference-index-differs-from-merge-key-position")
+            if any(getattr(r, "merge", None) for r in getattr(parent, "_ref", [])) or any(
+                    parent is m[1] for x in amaps_all for m in getattr(x, "merge", [])):
+                feats.add("mapping-is-itself-merged-elsewhere")
+            continue
+        try:
+            kj = codec.key_to_json(pref)
+        except codec.OutOfModel:
+            bump("merge-doc:skipped:odd-parentref")
+            return
+        if kj in own_keys:
+            rm_own.add((ci, json.dumps(kj)))
+            feats.add("own-key")
+            if c["merge"] and isinstance(kj, str) and any(codec.anchor_of(m) == kj for m in amaps):
+                feats.add("own-key-spelled-like-an-anchor")
+            continue
+        bump("merge-doc:skipped:matched-an-inherited-key")
+        return
+    for ci, c in enumerate(want):
+        if c["t"] == "map":
+            c["own"] = [[k, v] for k, v in c["own"] if (ci, json.dumps(k)) not in rm_own]
+            c["merge"] = [m for m in c["merge"] if (ci, m[1]) not in rm_merge]
+        else:
+            c["items"] = [v for i, v in enumerate(c["items"]) if (ci, i) not in rm_item]
+    renum = mk_renumber(want)
+    doc = c03.mk_load(text)
+    proc = Processor(core.quiet_logger(), doc)
+    if api == "gathered":
+        r = ed.guarded(lambda: proc.delete_gathered_nodes(list(proc.get_nodes(path, mustexist=True))))
+    else:
+        r = ed.guarded(lambda: list(proc.delete_nodes(path)))
+    rep = dict(case)
+    for f in feats:
+        bump("merge-doc:feature:" + f)
+    bump("merge-doc:impl:" + r[0].split(":")[0])
+    what = "delete %s (%s) on a document with merge keys" % (path, api)
+    if r[0] == "timeout":
+        viol.append(("timeout", what + " did not finish", rep))
+        return
+    # known classes of the pinned tree get their own signatures (C04-F2..F5), everything else is reported plainly
+    pos_class = "reference-index-differs-from-merge-key-position" in feats
+    found = []
+    if r[0] != "ok":
+        sig = "merge-doc:%s@%s" % (r[0], r[1])
+        if "own-key-spelled-like-an-anchor" in feats:
+            sig = "merge-doc:own-key-spelled-like-an-anchor"
+        elif pos_class and r[0] == "crash:IndexError":
+            sig = "merge-doc:merge-key-position-used-as-index:crash:IndexError"
+        elif "mapping-is-itself-merged-elsewhere" in feats and r[0] == "crash:KeyError":
+            sig = "merge-doc:reference-removed-from-a-merged-mapping:crash:KeyError"
+        found.append((sig, "raised %s (%s)" % (r[0], r[1])))
+    after = c03.mk_phys(proc.data)
+    if len(after) == len(want):
+        # same containers (a merge-reference delete never detaches one): judge own keys and references per mapping
+        for ci, (w, a) in enumerate(zip(want, after)):
+            if w == a:
+                continue
+            if w["t"] != "map" or a["t"] != "map":
+                if r[0] == "ok":
+                    found.append(("merge-doc:sequence-changed", "sequence #%d: expected %s, found %s" % (ci, json.dumps(w)[:160], json.dumps(a)[:160])))
+                continue
+            wk, ak = [json.dumps(k) for k, _ in w["own"]], [json.dumps(k) for k, _ in a["own"]]
+            lost = [k for k in wk if k not in ak]
+            eq = [k for k in lost if k in eq_own.get(ci, ())]
+            neq = [k for k in lost if k not in eq_own.get(ci, ())]
+            if "own-key-spelled-like-an-anchor" in feats and (lost or [k for k in ak if k not in wk] or w["merge"] != a["merge"]):
+                found.append(("merge-doc:own-key-spelled-like-an-anchor", "mapping #%d: expected own keys %s and references %s, found %s and %s" % (
+                    ci, wk, w["merge"], ak, a["merge"])))
+                continue
+            if neq:
+                found.append(("merge-doc:own-keys-removed", "mapping #%d lost its own keys %s (not matched by the path; own keys expected %s, found %s)" % (
+                    ci, neq, wk, ak)))
+            if eq:
+                found.append(("merge-doc:own-key-repeating-merged-value-removed", "mapping #%d lost its own keys %s whose values equal the removed mapping's" % (ci, eq)))
+            if r[0] != "ok":
+                continue                # a crashed delete: what was not yet removed is not judged
+            if [k for k in ak if k not in wk]:
+                found.append(("merge-doc:matched-own-key-not-removed", "mapping #%d still owns %s" % (ci, [k for k in ak if k not in wk])))
+            elif [k for k in wk if k in ak] != ak or [kv for kv in w["own"] if json.dumps(kv[0]) in ak] != a["own"]:
+                found.append(("merge-doc:own-entries-changed", "mapping #%d: expected %s, found %s" % (ci, json.dumps(w["own"])[:160], json.dumps(a["own"])[:160])))
+            if w["merge"] != a["merge"]:
+                found.append(("merge-doc:merge-key-position-used-as-index:other-reference-removed" if pos_class
+                              else "merge-doc:merge-references-changed",
+                              "mapping #%d: references expected %s, found %s" % (ci, w["merge"], a["merge"])))
+            if w["anchor"] != a["anchor"]:
+                found.append(("merge-doc:container-anchor-changed", "mapping #%d" % ci))
+    elif r[0] == "ok" and after != renum:
+        sig, detail = c03.mk_describe(renum, after)
+        found.append((sig, detail))
+    if r[0] == "ok" and len(after) != len(want) and after == renum:
+        pass
+    if not found:
+        if r[0] == "ok":
+            keys.append(_key({"doc": text, "path": path}))
+        return
+    seen = set()
+    for sig, detail in found:
+        if sig not in seen:
+            seen.add(sig)
+            viol.append((sig, what + ": " + detail + "\n" + text, rep))
+
+
+def ids_maps(root):
+    from ruamel.yaml.comments import CommentedMap, CommentedSeq
+    seen, out = set(), []
+
+    def walk(n):
+        if isinstance(n, (CommentedMap, CommentedSeq)):
+            if id(n) in seen:
+                return
+            seen.add(id(n))
+            if isinstance(n, CommentedMap):
+                out.append(n)
+                for m in getattr(n, "merge", []):
+                    walk(m[1])
+                for v in n.values():
+                    walk(v)
+            else:
+                for v in n:
+                    walk(v)
+    walk(root)
+    return out
 
 
 def real_delete(j, path, api):
@@ -104,6 +587,12 @@ def _job(cases):
     pend = []
     for case in cases:
         stats["n"] += 1
+        if case.get("slice") or case.get("merge"):
+            try:
+                (slice_case if case.get("slice") else merge_case)(case, bump, viol, keys)
+            except codec.OutOfModel:
+                stats["oom"] += 1
+            continue
         j, path = case["doc"], case["path"]
         try:
             g = ed.gather(j, path, "delete")
